@@ -11,8 +11,9 @@ import (
 	"verif/refcodec"
 )
 
-var ttlVals = []int{-1, 0, 1, 2, 30, 254, 255, 256, 257, 258, 300, 511, 65536, 65537}
-var portVals = []int{-1, 0, 1, 65535, 65536, 70000}
+// (the last two of each list: values beyond 32 bits whose low 32 bits alone would be an ordinary value)
+var ttlVals = []int{-1, 0, 1, 2, 30, 254, 255, 256, 257, 258, 300, 511, 65536, 65537, 1<<32 + 3, -(1 << 32) + 3}
+var portVals = []int{-1, 0, 1, 65535, 65536, 70000, 1<<32 + 33434, -(1 << 32) + 33434}
 var protoVals = []string{"udp", "tcp", "icmp", "UDP", "", "sctp"}
 var methodVals = []string{"", "syn", "sack", "prefer_sack", "syn_socket", "bogus"}
 
